@@ -49,6 +49,16 @@ def run_to_end(sim):
         return type(e).__name__
 
 
+def _probe(sim):
+    try:
+        if sim.is_done():
+            sim.step()
+            sim.run()
+            sim.is_done()
+    except Exception:
+        pass
+
+
 def run(tier, seed):
     rnd = random.Random(seed + 13)
     evals, seen, viol, samples = 0, set(), [], []
@@ -62,40 +72,52 @@ def run(tier, seed):
             for ti, target in enumerate(targets):
                 if tier == "quick" and len(hs) == 2 and (hs[0] + hs[1] + ti) % 3:
                     continue
-                sim = RiscvSimulation(**kw)
-                for h in hs:
+                for probe in (False, True):
+                    if probe and len(hs) == 2 and (hs[0] + ti) % 2:
+                        continue
+                    sim = RiscvSimulation(**kw)
+                    # probe: lifecycle calls on the simulation while it has not started -- is_done() anywhere, step()/run()
+                    # where it reports done (no instructions yet / empty or failed load), which by the property's first
+                    # clause change nothing and leave it not started
+                    if probe:
+                        _probe(sim)
+                    for h in hs:
+                        try:
+                            sim.load_program(HIST[h])
+                        except Exception:
+                            pass
+                        if probe:
+                            _probe(sim)
+                    if sim.has_started:
+                        continue
+                    fresh = RiscvSimulation(**kw)
+                    ra = rb = None
                     try:
-                        sim.load_program(HIST[h])
-                    except Exception:
-                        pass
-                fresh = RiscvSimulation(**kw)
-                ra = rb = None
-                try:
-                    sim.load_program(target)
-                except Exception as e:
-                    ra = type(e).__name__
-                try:
-                    fresh.load_program(target)
-                except Exception as e:
-                    rb = type(e).__name__
-                evals += 1
-                if hs:
-                    seen.add((hs, ti if ti < len(TARGETS) else "rand", tuple(sorted(kw))))
-                bad = None
-                if ra != rb:
-                    bad = "load outcome %s vs fresh %s" % (ra, rb)
-                elif not api.same(api.snapshot(sim, ignore=TIMER), api.snapshot(fresh, ignore=TIMER)):
-                    out = []
-                    api._diff(("tuple", list(api.snapshot(sim, ignore=TIMER).tree)), ("tuple", list(api.snapshot(fresh, ignore=TIMER).tree)), "", out)
-                    bad = "state after reload differs from a fresh load at " + ", ".join(out[:3])
-                elif ra is None:
-                    ea, eb = run_to_end(sim), run_to_end(fresh)
-                    if ea != eb or not api.same(api.snapshot(sim, ignore=TIMER), api.snapshot(fresh, ignore=TIMER)):
-                        bad = "run after reload differs from run after a fresh load"
-                if bad and len(viol) < 5:
-                    viol.append({"key": "C13:reload:" + bad[:60], "what": bad, "history": [HIST[h] for h in hs], "text": target, "options": sorted(kw)})
-                elif not bad and hs and len(samples) < 2:
-                    samples.append({"history": [HIST[h][:40] for h in hs], "then": target[:60]})
+                        sim.load_program(target)
+                    except Exception as e:
+                        ra = type(e).__name__
+                    try:
+                        fresh.load_program(target)
+                    except Exception as e:
+                        rb = type(e).__name__
+                    evals += 1
+                    if hs:
+                        seen.add((hs, ti if ti < len(TARGETS) else "rand", tuple(sorted(kw))))
+                    bad = None
+                    if ra != rb:
+                        bad = "load outcome %s vs fresh %s" % (ra, rb)
+                    elif not api.same(api.snapshot(sim, ignore=TIMER), api.snapshot(fresh, ignore=TIMER)):
+                        out = []
+                        api._diff(("tuple", list(api.snapshot(sim, ignore=TIMER).tree)), ("tuple", list(api.snapshot(fresh, ignore=TIMER).tree)), "", out)
+                        bad = "state after reload differs from a fresh load at " + ", ".join(out[:3])
+                    elif ra is None:
+                        ea, eb = run_to_end(sim), run_to_end(fresh)
+                        if ea != eb or not api.same(api.snapshot(sim, ignore=TIMER), api.snapshot(fresh, ignore=TIMER)):
+                            bad = "run after reload differs from run after a fresh load"
+                    if bad and len(viol) < 5:
+                        viol.append({"key": "C13:reload:" + bad[:60], "what": bad, "history": [HIST[h] for h in hs], "text": target, "options": sorted(kw), "probe": probe})
+                    elif not bad and hs and len(samples) < 2:
+                        samples.append({"history": [HIST[h][:40] for h in hs], "then": target[:60]})
     # TOY
     for hs in itertools.chain.from_iterable(itertools.permutations(["LDA 5\nINC", ".data\nv: .word 7\n.text\nLDA v\nBRZ nowhere", "", "garbage here"], k) for k in (0, 1, 2)):
         for target in ("LDA x\nINC\nSTO x\n.data\nx: .word 41", "", "loop: INC\nBRZ loop"):
@@ -121,18 +143,27 @@ def run(tier, seed):
 
 
 def replay(j):
-    sim = RiscvSimulation()
+    """re-evaluates the recorded history on the current tree (default options; the cached configurations of the run are
+    named in the file but not rebuilt here)"""
+    sim = RiscvSimulation(**({"mode": "five_stage_pipeline"} if "mode" in j.get("options", []) else {}))
+    if j.get("probe"):
+        _probe(sim)
     for h in j.get("history", []):
         try:
             sim.load_program(h)
         except Exception:
             pass
-    fresh = RiscvSimulation()
+        if j.get("probe"):
+            _probe(sim)
+    fresh = RiscvSimulation(**({"mode": "five_stage_pipeline"} if "mode" in j.get("options", []) else {}))
     for s in (sim, fresh):
         try:
             s.load_program(j["text"])
         except Exception:
             pass
     ok = api.same(api.snapshot(sim, ignore=TIMER), api.snapshot(fresh, ignore=TIMER))
-    print("history:", j.get("history"), "target:", j["text"], "->", "same as fresh" if ok else "DIFFERS from a fresh load")
+    if ok:
+        ea, eb = run_to_end(sim), run_to_end(fresh)
+        ok = ea == eb and api.same(api.snapshot(sim, ignore=TIMER), api.snapshot(fresh, ignore=TIMER))
+    print("history:", j.get("history"), "probe:", j.get("probe"), "target:", j["text"], "->", "same as fresh" if ok else "DIFFERS from a fresh load")
     return ok
